@@ -12,7 +12,7 @@
        k = first section with a failure  -> leaves in section k: with its own exception if it threw there, otherwise
                                             with MPIGuardError at the checkpoint of section k; k+1 checkpoints.  *)
 From Coq Require Import List Bool Arith NArith.
-From DuneV Require Import C19_Model C19_Spec C19_Proofs C19_Proofs_Fut.
+From DuneV Require Import Params_gen C19_Model C19_Spec C19_Proofs C19_Proofs_Fut.
 Import ListNotations.
 
 (* every P, every S >= 1, every outcome matrix, guard initially active or not (then re-armed first):
@@ -23,6 +23,108 @@ Theorem C19_agreement : forall (act0 : bool) (S : nat) (outs : list (list c19_ou
   C19_Finished (map (fun r => (Some (fst (c19_spec_exit act0 S outs r)), snd (c19_spec_exit act0 S outs r))) (seq 0 (length outs))).
 Proof. exact P_agreement. Qed.
 Print Assumptions C19_agreement.
+
+(* the same, with the prescription spelled out (no auxiliary search function in the statement): nobody is blocked; if every
+   outcome is Ok every process leaves normally after S checkpoints; if k is the first section in which some process does
+   not end with Ok, every process leaves in section k - with its own exception if it threw there, otherwise with
+   MPIGuardError (carrying the number of failing processes) at the checkpoint of section k - after k+1 checkpoints *)
+Theorem C19_agreement_declarative : forall (act0 : bool) (S : nat) (outs : list (list c19_outcome)) d,
+  1 <= S -> Forall (fun os => length os = S) outs ->
+  exists res, c19_sections_run act0 outs = C19_Finished res /\ length res = length outs /\
+    ((forall r k, r < length outs -> k < S -> c19_outcome_at outs r k = C19_Ok) ->
+       forall r, r < length outs -> nth r res d = (Some C19_Normal, S)) /\
+    (forall k, k < S -> (exists r, r < length outs /\ c19_outcome_at outs r k <> C19_Ok) ->
+       (forall j r, j < k -> r < length outs -> c19_outcome_at outs r j = C19_Ok) ->
+       forall r, r < length outs ->
+       nth r res d = (Some (if c19_is_throw (c19_outcome_at outs r k) then C19_UserExc (c19_pc_of act0 k)
+                            else C19_GuardError (c19_pc_of act0 k) (c19_nfail outs k)), k + 1)).
+Proof. exact P_agreement_declarative. Qed.
+Print Assumptions C19_agreement_declarative.
+
+(* whatever their outcomes, all processes of the communicator took part in the same number of collectives when the scope is
+   left: the collectives of the next scope are matched with each other (no mismatch between consecutive scopes) ... *)
+Theorem C19_collectives_aligned : forall act0 S outs r r',
+  snd (c19_spec_exit act0 S outs r) = snd (c19_spec_exit act0 S outs r').
+Proof. exact P_collectives_aligned. Qed.
+Print Assumptions C19_collectives_aligned.
+
+(* ... hence any sequence of guarded scopes (a new guard each, initially active or not, any number of sections each):
+   every scope ends on all processes as prescribed *)
+Theorem C19_sequential : forall (scopes : list (bool * list (list c19_outcome))) (Ss : list nat),
+  Forall2 (fun sc S => 1 <= S /\ Forall (fun os => length os = S) (snd sc)) scopes Ss ->
+  c19_scopes_run scopes = map (fun p => c19_expected (fst (fst p)) (snd p) (snd (fst p))) (combine scopes Ss).
+Proof. exact P_sequential. Qed.
+Print Assumptions C19_sequential.
+
+(* nested guards, the inner ones on the communicators of an arbitrary partition of the outer one (split communicators):
+   every group ends its inner scope as prescribed, and the outer scope ends as the one-section scope in which exactly the
+   processes of the failed groups "throw" (they unwind through it): c19_outer_outs *)
+Theorem C19_nested : forall (S : nat) (groups : list (list (list c19_outcome))),
+  1 <= S -> Forall (Forall (fun os => length os = S)) groups ->
+  c19_nested_run groups = (map (c19_expected true S) groups, c19_expected true 1 (c19_outer_outs S groups)).
+Proof. exact P_nested. Qed.
+Print Assumptions C19_nested.
+
+(* no process fails at the outer checkpoint iff no (non-empty) group failed inside *)
+Theorem C19_nested_outer_clean_iff : forall S groups,
+  c19_nfail (c19_outer_outs S groups) 0 = 0 <->
+  forallb (fun g => negb (c19_group_failed S g) || match g with [] => true | _ => false end) groups = true.
+Proof. exact outer_nfail_zero_iff. Qed.
+Print Assumptions C19_nested_outer_clean_iff.
+
+(* split communicators (MPI_Comm_split by colour, key = rank): c19_groups is a partition of the world ranks - every rank
+   lies in exactly one group, that of its colour; groups are non-empty, duplicate-free, in rank order, of one colour, and
+   pairwise different.  (The independence of collectives on the disjoint communicators is the trusted MPI assumption.) *)
+Theorem C19_groups_partition : forall colors r, r < length colors ->
+  In (c19_group_of colors (nth r colors 0)) (c19_groups colors) /\
+  (forall g, In g (c19_groups colors) -> In r g -> g = c19_group_of colors (nth r colors 0)) /\
+  In r (c19_group_of colors (nth r colors 0)).
+Proof. exact P_groups_partition. Qed.
+Print Assumptions C19_groups_partition.
+
+Theorem C19_groups_shape : forall colors g, In g (c19_groups colors) ->
+  g <> [] /\ NoDup g /\ (forall r, In r g -> r < length colors) /\ (forall r r', In r g -> In r' g -> nth r colors 0 = nth r' colors 0).
+Proof. exact P_groups_shape. Qed.
+Print Assumptions C19_groups_shape.
+
+Theorem C19_groups_distinct : forall colors, NoDup (c19_groups colors).
+Proof. exact P_groups_disjoint_count. Qed.
+Print Assumptions C19_groups_distinct.
+
+(* default arguments and the destructor, with the literals re-read from mpiguard.hh (Params_gen.v): finalize() is
+   finalize(true); a constructor without `active` arms the guard; the destructor of an armed guard contributes a failure
+   (also during unwinding), that of a disarmed guard does not communicate *)
+Theorem C19_finalize_default : forall rest pc a, c19_run (C19_FinDefault :: rest) pc a = c19_run (C19_FinOk :: rest) pc a.
+Proof. exact P_finalize_default. Qed.
+Print Assumptions C19_finalize_default.
+
+Theorem C19_ctor_default : c19_ctor_active None = true /\ forall a, c19_ctor_active (Some a) = a.
+Proof. exact P_ctor_default. Qed.
+Print Assumptions C19_ctor_default.
+
+Theorem C19_destructor : forall pc,
+  c19_run [] pc true = C19_AtColl 1 (C19_KDtor C19_Normal) /\
+  c19_run [] pc false = C19_Done C19_Normal /\
+  (forall rest, c19_run (C19_Throw :: rest) pc true = C19_AtColl 1 (C19_KDtor (C19_UserExc pc))) /\
+  (forall rest, c19_run (C19_Throw :: rest) pc false = C19_Done (C19_UserExc pc)).
+Proof. exact P_dtor_reports_failure. Qed.
+Print Assumptions C19_destructor.
+
+Example C19_example_nested :
+  c19_nested_run [ [[C19_Ok]; [C19_ReportsFailure]] ; [[C19_Ok]; [C19_Ok]; [C19_Ok]] ] =
+  ( [ C19_Finished [(Some (C19_GuardError 0 1), 1); (Some (C19_GuardError 0 1), 1)];
+      C19_Finished [(Some C19_Normal, 1); (Some C19_Normal, 1); (Some C19_Normal, 1)] ],
+    C19_Finished [(Some (C19_UserExc 0), 1); (Some (C19_UserExc 0), 1);
+                  (Some (C19_GuardError 0 2), 1); (Some (C19_GuardError 0 2), 1); (Some (C19_GuardError 0 2), 1)] ).
+Proof. exact P_example_nested. Qed.
+Print Assumptions C19_example_nested.
+
+Example C19_example_sequential :
+  c19_scopes_run [(true, [[C19_Ok; C19_Throws]; [C19_Ok; C19_Ok]]); (false, [[C19_ReportsFailure]; [C19_Ok]])] =
+  [ C19_Finished [(Some (C19_UserExc 2), 2); (Some (C19_GuardError 2 1), 2)];
+    C19_Finished [(Some (C19_GuardError 1 1), 1); (Some (C19_GuardError 1 1), 1)] ].
+Proof. exact P_example_sequential. Qed.
+Print Assumptions C19_example_sequential.
 
 (* reading of the prescription: c19_first_fail is the least failing section, c19_nfail counts the failing processes *)
 Theorem C19_first_fail_none : forall S outs, c19_first_fail outs 0 S = None -> forall k, k < S -> c19_nfail outs k = 0.
@@ -138,6 +240,63 @@ Theorem C19_future_move_assign : forall (D : Type) (cfg : c19_cfg) (k : c19_bkin
   snd (c19_fstep cfg k v C19_MoveAssign f) = f.
 Proof. exact P_future_move_assign. Qed.
 Print Assumptions C19_future_move_assign.
+
+(* type-erased Dune::Future<T> holding an MPIFuture of ANY buffer kind: accepted for ALL histories, moves of the wrapper
+   included (its source is always emptied), and the empty wrapper (default-constructed / moved-from) reports every misuse *)
+Theorem C19_erased_future : forall (D : Type) (deqb : D -> D -> bool), (forall d, deqb d d = true) ->
+  forall (k : c19_bkind) (v init : D) (h : list c19_fev), c19_no_senddata h ->
+  c19_spec_accept deqb v false false false (c19_etrace c19_cfg_fixed k v h (Some (c19_fut_started init))) = true /\
+  c19_spec_accept deqb v true false false (c19_etrace c19_cfg_fixed k v h None) = true.
+Proof. exact P_erased_future. Qed.
+Print Assumptions C19_erased_future.
+
+(* "becomes ready once the operation has completed": after the completion event EVERY later ready() is true, for every
+   buffer kind, code variant, and whatever calls / moves happen in between *)
+Theorem C19_ready_after_completion : forall (D : Type) (cfg : c19_cfg) (k : c19_bkind) (v : D) (h : list c19_fev) (f : c19_fut D),
+  Forall (fun it => match it with C19_TOp C19_Ready r => r = C19_RBool true | _ => True end)
+         (c19_ftrace cfg k v h (c19_complete v f)).
+Proof. exact P_ready_after_completion. Qed.
+Print Assumptions C19_ready_after_completion.
+
+(* "reports misuse ... instead of blocking or returning stale data" *)
+Theorem C19_invalid_rejects : forall (D : Type) (cfg : c19_cfg) (k : c19_bkind) (v : D) (f : c19_fut D), c19_fvalid f = false ->
+  c19_fstep cfg k v C19_Wait f = ([C19_TOp C19_Wait C19_RInvalid], f) /\
+  c19_fstep cfg k v C19_Get f = ([C19_TOp C19_Get C19_RInvalid], f) /\
+  c19_fstep cfg k v C19_SendData f = ([C19_TOp C19_SendData C19_RInvalid], f) /\
+  c19_fstep cfg k v C19_Valid f = ([C19_TOp C19_Valid (C19_RBool false)], f).
+Proof. exact P_invalid_rejects. Qed.
+Print Assumptions C19_invalid_rejects.
+
+(* get() on a started future (completed in the network or not) waits, hands out exactly the delivered data - not the
+   buffer content `init` from before completion - and leaves the future invalid with a null request *)
+Theorem C19_get_invalidates : forall (D : Type) (cfg : c19_cfg) (k : c19_bkind) (v init : D) (netdone : bool),
+  c19_get_ok cfg k = true ->
+  let f := C19_mkfut (Some (if netdone then v else init)) (C19_ReqActive netdone) in
+  exists t, c19_fstep cfg k v C19_Get f = (t ++ [C19_TOp C19_Get (C19_RData v)], C19_mkfut None C19_ReqNull).
+Proof. exact P_get_invalidates. Qed.
+Print Assumptions C19_get_invalidates.
+
+(* constructors MPIFuture(bool valid = <default re-read from the source>) *)
+Theorem C19_future_ctor : forall (D : Type) (v0 : D),
+  c19_fut_ctor None v0 = c19_fut_default /\ c19_fut_ctor (Some false) v0 = c19_fut_default /\
+  c19_fut_ctor (Some true) v0 = c19_fut_prevalid v0.
+Proof. exact P_fut_ctor. Qed.
+Print Assumptions C19_future_ctor.
+
+(* which non-blocking calls are refused at the start (ParallelError) *)
+Theorem C19_start_rejected : forall fam op n,
+  c19_start_rejected fam op n = true <->
+  (fam = C19_FamSeq /\ (op = C19_Isend \/ op = C19_Irecv)) \/ (fam = C19_FamMPI /\ op = C19_Irecv /\ n = 0).
+Proof. exact P_start_rejected. Qed.
+Print Assumptions C19_start_rejected.
+
+Example C19_example_erased :
+  c19_etrace c19_cfg_fixed C19_BRef 5 [C19_EvOp C19_Move; C19_EvOp C19_Ready; C19_EvComplete; C19_EvOp C19_MoveAssign; C19_EvOp C19_Get; C19_EvOp C19_Get]
+             (Some (c19_fut_started 0))
+  = [C19_TOp C19_Move (C19_RBool false); C19_TOp C19_Ready (C19_RBool false); C19_TEnable; C19_TOp C19_MoveAssign (C19_RBool false);
+     C19_TOp C19_Get (C19_RData 5); C19_TOp C19_Get C19_RInvalid].
+Proof. exact P_example_erased. Qed.
+Print Assumptions C19_example_erased.
 
 (* PseudoFuture (Communication<No_Comm>): same specification, ready at once *)
 Theorem C19_pseudofuture : forall (D : Type) (deqb : D -> D -> bool), (forall d, deqb d d = true) ->
